@@ -36,6 +36,10 @@ def U(n):
     return K("usize", n)
 
 
+def _is_unit_enum(it, adt):
+    return adt is not None and it.ctx.unit_enums.get(adt, False)
+
+
 # ----------------------------------------------------------------------------- panics (diverging)
 PANIC_FUNCS = (
     "core::panicking::panic_fmt", "core::panicking::panic", "std::panicking::begin_panic",
@@ -258,7 +262,7 @@ def check_range(it, S, t, what, rng, ln, callee):
     start, end = rng
     p1 = S.prove_le(start, end, 0)
     p2 = S.prove_le(end, ln, 0)
-    it.oblige("precond:" + what, "%s|start=%s|end=%s|len=%s" % (what, stable(start), stable(end), stable(ln)), p1 and p2, t["span"],
+    it.oblige("precond:" + what, "%s|start=%s|len=%s" % (what, stable(start), stable(ln)), p1 and p2, t["span"],
               "range %s .. %s ; len %s ; start<=end %s ; end<=len %s" % (it.describe(S, start), it.describe(S, end), it.describe(S, ln), p1, p2), callee=callee)
     S.add_le(start, end, 0)
     S.add_le(end, ln, 0)
@@ -432,6 +436,19 @@ def m_view(it, S, t, callee, args):
 def m_clone_value(it, S, t, callee, args):
     v = it.deref_value(S, args[0], 1)
     return v
+
+
+@model("core::clone::Clone::clone")
+def m_clone_generic(it, S, t, callee, args):
+    # derived Clone of a field-less enum / Copy scalars: the same value
+    ty = it.op_type(t["args"][0])
+    inner = ty.get("to", ty)
+    if inner.get("k") in ("uint", "int", "bool", "char") or (inner.get("k") == "adt" and _is_unit_enum(it, inner.get("adt"))):
+        v = it.deref_value(S, args[0], 1)
+        if sv_type(v) is None and isinstance(v, tuple) and v[0] not in ("agg", "ref", "upd", "vagg"):
+            set_ty(v, tykey(inner))
+        return v
+    return None
 
 
 @model("<T as alloc::string::ToString>::to_string", "alloc::str::<impl alloc::borrow::ToOwned for str>::to_owned",
@@ -683,10 +700,6 @@ def m_as_ref(it, S, t, callee, args):
 
 
 # ----------------------------------------------------------------------------- equality
-def _is_unit_enum(it, adt):
-    return adt is not None and it.ctx.unit_enums.get(adt, False)
-
-
 def m_eq_generic(it, S, t, callee, args):
     name = norm_name(callee.get("pretty"))
     neg = name.endswith("::ne")
